@@ -181,7 +181,7 @@ CHECKS = {
         "rule": "(a) byte strings of length 0..64 in structured classes (length field ==, <, > the buffer length; shorter than a header; all 0xFF; high length bytes set) and longer "
                 "ones up to 5 KiB; every well-formed event of a generated history truncated to and extended from EVERY length -> IsValid must equal (len >= 19 and "
                 "le32(b[9:13]) == len) for both event flavors and every header accessor / type predicate must agree with an independent read. (b) a packet failing the gate "
-                "(6 classes) injected at EVERY packet index of generated histories, both pacings: Stream != nil, no panic, exactly the transactions committed before the packet "
+                "(8 classes, incl. over-long by 1 and by 4 bytes) injected at EVERY packet index of generated histories, both pacings: Stream != nil, no panic, exactly the transactions committed before the packet "
                 "are delivered (none partial), the next attempt asks for a position in the resume window and completes the history exactly once. Every case is non-trivial; "
                 "distinct = distinct case hashes. Thorough adds native go fuzzing of (a)",
         "assumptions": TRUST + ["packets that pass the gate but carry a broken body are not this property's subject"],
